@@ -548,15 +548,20 @@ def x_For(E, node, st):
                 yield s
             continue
         _, bs, guard, ev, idx, n = b
+        seqval = itv if isinstance(itv, SVal) and isinstance(itv.ty, TList) else None
         if idx is None or n is None:
-            # unordered iterable (set / dict view): iterate an arbitrary enumeration
-            seq = seq_of(E, itv if not isinstance(itv, IterView) else _view_seq(E, itv, s0), s0)
-            b = binder(E, seq, s0)
+            # unordered iterable (set / dict view): iterate ONE arbitrary enumeration (also visible to invariants as `seq`)
+            seqval = seq_of(E, itv if not isinstance(itv, IterView) else _view_seq(E, itv, s0), s0)
+            b = binder(E, seqval, s0)
             _, bs, guard, ev, idx, n = b
-        try:
-            seqval = seq_of(E, itv, s0) if not isinstance(itv, SVal) or isinstance(itv.ty, (TOpt,)) else itv
-        except OutsideSubset:
-            seqval = None
+        elif seqval is None:
+            try:
+                seqval = seq_of(E, itv, s0)
+                if isinstance(itv, IterView) and itv.kind not in ("enumerate", "range", "zip", "items"):
+                    b = binder(E, seqval, s0)
+                    _, bs, guard, ev, idx, n = b
+            except OutsideSubset:
+                seqval = None
         yield from _sym_for(E, node, s0, bs, guard, ev, idx, n, invs, fname, ordinal, seqval)
 
 
